@@ -237,13 +237,8 @@ func (w *c16World) apply(r *vlib.Run, e c16Event, check bool, c *c16Case) {
 	case "clear":
 		w.cs.ClearKeyLevelCache()
 		if check {
-			r.Transition()
-			r.Eval()
-			r.Space(1)
-			r.Class("clear")
-			if w.cs.keyLevelCache.Len() != 0 {
-				r.Violation("blockchain.ChainState.ClearKeyLevelCache", "not-empty", "flavour="+w.flavour, "cache not empty after Clear", c)
-			}
+			r.Transition() // no oracle on clear itself: the property speaks about roots only
+			r.Class(fmt.Sprintf("clear emptied=%v", w.cs.keyLevelCache.Len() == 0))
 		}
 	case "root":
 		var res c16RootResult
